@@ -236,10 +236,20 @@ func c19TokenAgreement(r *an.Run) {
 			if r.Check(so != nil && tx != nil && ps != nil, short(f)+"|per-line-state", f.Pos(), "startOffset, text and pos are (re)assigned inside the per-line loop: a header preceded by comment lines is still described by its own line") {
 				r.Check(an.Path(so.Val) == "p.offset" && so.Block() == tx.Block() && so.Block() == ps.Block() && an.InstrBlockIndex(so) < an.InstrBlockIndex(tx),
 					short(f)+"|assigned-together", so.Pos(), "the three are assigned together, startOffset first, from the offset at which the line begins")
+				// "the start offset": a load of p.startOffset, or the very value that was stored into it
+				isStart := func(v ssa.Value) bool { return an.Path(v) == "p.startOffset" || v == so.Val }
 				sl, isSl := tx.Val.(*ssa.Slice)
-				r.Check(isSl && an.Path(sl.X) == "p.content" && an.Path(sl.Low) == "p.startOffset" && an.Path(sl.High) == "p.offset", short(f)+"|text-span", tx.Pos(), "text is content[startOffset:offset]")
+				if !isSl {
+					// text may be set from a local that holds the slice
+					for _, in := range tx.Block().Instrs {
+						if x, ok := in.(*ssa.Slice); ok && ssa.Value(x) == tx.Val {
+							sl, isSl = x, true
+						}
+					}
+				}
+				r.Check(isSl && an.Path(sl.X) == "p.content" && isStart(sl.Low) && an.Path(sl.High) == "p.offset", short(f)+"|text-span", tx.Pos(), "text is content[startOffset:offset]")
 				pc, isCall := ps.Val.(*ssa.Call)
-				r.Check(isCall && an.IsCallTo(pc, "(*go/token.File).Pos") && an.Path(pc.Call.Args[1]) == "p.startOffset", short(f)+"|pos-of-line-start", ps.Pos(), "pos is the file position of startOffset")
+				r.Check(isCall && an.IsCallTo(pc, "(*go/token.File).Pos") && isStart(pc.Call.Args[1]), short(f)+"|pos-of-line-start", ps.Pos(), "pos is the file position of startOffset")
 			}
 		}
 		n++
@@ -342,35 +352,62 @@ func c19LineMap(r *an.Run) {
 			r.Check(paired, short(f)+"|"+side+"|paired-with-line-pos", lenCall.Pos(), "the sampled offset is paired with the (marker-adjusted) start position of that line")
 			n++
 		}
-		// StartPos++ and Text[1:] in the same arm
+		// StartPos++ and Text[1:] happen together (same block), in splitPatch or in a helper it calls, and
+		// both marker arms perform them
+		group := helperGroup(f, 2)
 		var incBlocks, sliceBlocks []*ssa.BasicBlock
-		for _, b := range f.Blocks {
-			for _, in := range b.Instrs {
-				switch x := in.(type) {
-				case *ssa.Store:
-					if strings.HasSuffix(an.Path(x.Addr), ".StartPos") {
-						if add, ok := x.Val.(*ssa.BinOp); ok && add.Op == token.ADD {
-							if k, ok := an.ConstInt(add.Y); ok && k == 1 {
-								incBlocks = append(incBlocks, b)
-							} else {
-								r.Fail(short(f)+"|startpos-step", x.Pos(), "StartPos is advanced by something other than 1")
+		for _, g := range group {
+			for _, b := range g.Blocks {
+				for _, in := range b.Instrs {
+					switch x := in.(type) {
+					case *ssa.Store:
+						if strings.HasSuffix(an.Path(x.Addr), ".StartPos") {
+							if add, ok := x.Val.(*ssa.BinOp); ok && add.Op == token.ADD {
+								if k, ok := an.ConstInt(add.Y); ok && k == 1 {
+									incBlocks = append(incBlocks, b)
+								} else {
+									r.Fail(short(f)+"|startpos-step", x.Pos(), "StartPos is advanced by something other than 1")
+								}
 							}
 						}
-					}
-				case *ssa.Slice:
-					if strings.HasSuffix(an.Path(x.X), ".Text") {
-						sliceBlocks = append(sliceBlocks, b)
+					case *ssa.Slice:
+						if strings.HasSuffix(an.Path(x.X), ".Text") {
+							sliceBlocks = append(sliceBlocks, b)
+						}
 					}
 				}
 			}
 		}
-		same := len(incBlocks) == 2 && len(sliceBlocks) == 2
+		same := len(incBlocks) >= 1 && len(incBlocks) == len(sliceBlocks)
 		for i := range incBlocks {
 			if i < len(sliceBlocks) && incBlocks[i] != sliceBlocks[i] {
 				same = false
 			}
 		}
-		r.Check(same, short(f)+"|marker-strip-paired", f.Pos(), "stripping the '-'/'+' byte and advancing the line's start position by one happen together, in both arms")
+		// both arms perform the pair
+		arms := 0
+		isFirstByte := func(v ssa.Value) bool {
+			u, ok := v.(*ssa.UnOp)
+			if !ok {
+				return false
+			}
+			ia, ok := u.X.(*ssa.IndexAddr)
+			if !ok {
+				return false
+			}
+			i, isc := an.ConstInt(ia.Index)
+			return isc && i == 0 && strings.HasSuffix(an.Path(ia.X), ".Text")
+		}
+		isInc := func(in ssa.Instruction) bool {
+			st, ok := in.(*ssa.Store)
+			return ok && strings.HasSuffix(an.Path(st.Addr), ".StartPos")
+		}
+		for _, c := range an.EqCases(f, isFirstByte) {
+			if _, ok := an.ConstInt(c.Key); ok && regionHas(c.Target, c.Else, group, isInc) {
+				arms++
+			}
+		}
+		r.Check(same && arms == 2, short(f)+"|marker-strip-paired", f.Pos(), "stripping the '-'/'+' byte and advancing the line's start position by one happen together, in both arms (%d pair(s), %d arm(s))", len(incBlocks), arms)
 	}
 	// AddLineColumnInfo wiring, for all lines, in both users
 	for _, name := range []string{"parser.parsePatchVersion", "parser.parseMeta"} {
